@@ -500,6 +500,8 @@ def aliasing_oracle(result, holders, label):
             lab, under_default = mine[oid]
             if lab.endswith(":schema"):
                 where = "schema-default"  # a "default" of the JSON schema given to an ActionJsonSchema argument
+            elif "od" in (under, under_default):
+                where = "ordered-dict"  # an OrderedDict (or a container inside one): not copied by recreate_branches
             elif under or under_default:
                 where = "inside-tuple-or-set"
             elif isinstance(o, set):
@@ -720,13 +722,16 @@ def items_for(tier):
               configurations of a shape) x full alphabet (QUICK_CORE_SHAPES: core alphabet, invalid positions of the
               stated configurations only); get_defaults / format_help once per shape (CONFIG_INDEPENDENT);
               generated nests of depth <= 2 with a declared default (depth 1 also without): the raw-form configuration
-              x (valid + every invalid position) and the final-form configuration (valid), core alphabet.
+              x (valid + every invalid position) and the final-form configuration (valid), core alphabet.  Nests with
+              the OrderedDict constructor R: depth 1 over both leaves, depth 2 over the leaf E only (R over every
+              constructor, every constructor over R), declared default in final form, plus the "mixed" configuration.
     thorough: hand-written shapes additionally with a second kind of invalid value at every position, with every PAIR
               of independent invalid positions (core alphabet; not for NO_PAIRS_SHAPES), and everything single again on
               a parser that has already been used for a parse, a help text and get_defaults (warm; not for
               QUICK_CORE_SHAPES);
               generated nests of depth <= 3: depth <= 2 with default forms none/final/raw, both configurations with
-              every invalid position, full alphabet; depth 3 with default forms final/raw, core alphabet."""
+              every invalid position, full alphabet; depth 3 with default forms final/raw, core alphabet.  Nests with
+              R: depth 1 in full (three default forms), depth 2 over both leaves like quick, none of depth 3."""
     items = []
 
     def add(name, profile, bad_for=(0, 1, 2, 3, 4, 5), values=(SH.BAD,), warm=False, pairs=False):
@@ -754,7 +759,9 @@ def items_for(tier):
                 add(name, "full")
         for t in SH.gen_types(2):
             depth = SH.type_depth(t)
-            for dform in ["final"] + (["none"] if depth == 1 else []):
+            if depth == 2 and SH.has_constructor(t, "R") and SH.leaf_of(t) == "i":
+                continue  # OrderedDict nests of depth 2 over the leaf int: thorough only (over E: here)
+            for dform in ["final"] + (["none"] if depth == 1 and t[0] != "R" else []):
                 add(f"gen:{SH.type_name(t)}:{dform}", "core", bad_for=(0,))
     else:
         for name in SH.NAMED:
@@ -765,6 +772,15 @@ def items_for(tier):
                 add(name, "core", pairs=True)
         for t in SH.gen_types(3):
             depth = SH.type_depth(t)
+            if SH.has_constructor(t, "R"):
+                # nests with the OrderedDict constructor (added by the third seeded-defect round, priced to keep the
+                # tier within its budget): depth 1 like the other constructors, depth 2 like the depth-3 nests, no depth 3
+                if depth == 1:
+                    for dform in ("none", "final", "raw"):
+                        add(f"gen:{SH.type_name(t)}:{dform}", "full+")
+                elif depth == 2:
+                    add(f"gen:{SH.type_name(t)}:final", "core", bad_for=(0,))
+                continue
             if depth <= 2:
                 for dform in ("none", "final", "raw"):
                     add(f"gen:{SH.type_name(t)}:{dform}", "full+")
@@ -804,6 +820,9 @@ def explore(ctx):
         caps_hit=[],
         bounds={
             "generic_type_depth": 2 if ctx.quick else 3,
+            "generic_type_constructors": "List Dict Tuple[t,int] Tuple[t,...] Set Optional at every depth; "
+            "OrderedDict (value of a mapping class of its own) at depth <= 2"
+            + (", depth 2 over the leaf E only" if ctx.quick else ""),
             "parser_shapes": len(shapes),
             "configurations_incl_invalid_positions": len(configs),
             "operations_and_forms": {"full": len(ops), "core": len(operations("core"))},
